@@ -60,6 +60,20 @@ def c07_runs(tier):
 
 
 PROPS = {
+    "C18": {
+        "engine": "enumeration + rapidcheck",
+        "technique": "reference-model comparison (independent longest-fitting-prefix encoder and 488.2 string reader) over an enumerated grid of codes, text lengths and quote positions plus rapidcheck-generated texts",
+        "level": "SYST:ERR? output for every code of the error list, a strided (quick) or complete (thorough) sweep of all 65536 codes, text "
+                 "lengths 0..400 with quotes at and around the 255-character boundary, explicit and automatic info lengths, in the malloc "
+                 "build and the static-heap build (texts placed so that they wrap around the end of the heap)",
+        "level_note": "descriptions are taken from the library's own LIST_OF_ERRORS macro (the property is about framing, not wording); for an "
+                      "empty device-dependent text both 'desc' and 'desc;' are accepted",
+        "design_ref": "DESIGN.md section 4, C18",
+        "runs": simple("c18", cfgs=("default", "heap")),
+        "rule": "case = (code, text, info length, heap placement); grid cases distinct by construction, random by hash; non-trivial = "
+                "description;text longer than 200 characters or text containing a double quote",
+        "assumptions": COMMON_ASSUME + ["explicit info lengths never exceed strlen(text); texts are NUL-terminated C strings"],
+    },
     "C15": {
         "engine": "enumeration + rapidcheck",
         "technique": "exact-size heap buffers under ASan + canaries over an enumerated (value x every length) grid and rapidcheck-generated values; oracle: bounded write, NUL placement, returned length, prefix of the full text",
